@@ -1243,6 +1243,24 @@ def rule_d3_parse(ctx):
             and group_index(mv, pa, defs, val.args[0]) == k1
         ck.expect(okv, 'C17-D3', pa.qual, 'self.code = int(<code group>)',
                   'the stored reply code is not the number in the code group', pa.loc(s.stmt))
+    # the lines matched are the lines as sent: an indented text line ("  226 of 4096 bytes") is a continuation only while its
+    # leading blanks are still there, so the text may not be stripped on the left before it is split / matched
+    data_param = pa.params[1] if len(pa.params) > 1 else None
+    loops = [n for n in walk_no_nested(pa.node) if isinstance(n, ast.For) and isinstance(n.iter, ast.Call) and U.attr_name(n.iter) == 'splitlines']
+    okraw = bool(loops)
+    for n in loops:
+        recv = n.iter.func.value
+        okraw = okraw and isinstance(recv, ast.Name) and recv.id == data_param and not [
+            d for d in U.local_defs(pa.node).get(recv.id, []) if d[1] != 'param']
+        lv = n.target.id if isinstance(n.target, ast.Name) else None
+        if lv:
+            okraw = okraw and not any(isinstance(c, ast.Call) and U.attr_name(c) in ('strip', 'lstrip') and isinstance(c.func.value, ast.Name)
+                                      and c.func.value.id == lv and any(isinstance(st_, ast.Assign) and st_.value is c and any(
+                                          isinstance(t, ast.Name) and t.id == lv for t in st_.targets) for st_ in walk_no_nested(n))
+                                      for c in U.calls(n))
+    ck.expect(okraw, 'C17-D3', pa.qual, 'for line in %s.splitlines(...): the lines are matched as sent' % (data_param or 'data'),
+              'the reply text is stripped before it is split into lines: read_reply feeds one line at a time, so the leading blanks of an '
+              'indented text line are lost and a text line that begins with three digits and a space ends the reply early', pa.loc(loops[0]) if loops else pa.loc())
     # informational: how the data is split into lines
     for n in walk_no_nested(pa.node):
         if isinstance(n, ast.For) and isinstance(n.iter, ast.Call) and U.attr_name(n.iter) == 'splitlines':
